@@ -93,6 +93,68 @@ def run_history(case):
         os.rmdir(d)
 
 
+FILES_RUNNER = r"""
+import sys, os, json
+sys.path.insert(0, %(native)r); sys.path.insert(0, %(verif)r)
+from common import RecordingWriter
+from a816.program import Program
+def build(path):
+    w = RecordingWriter()
+    try:
+        rc = Program().assemble_with_emitter(path, w)
+    except Exception as e:
+        rc = type(e).__name__
+    return {"rc": rc, "blocks": [[a, bytes(b).hex()] for a, b in w.blocks]}
+os.chdir(%(cwd)r)
+for h in %(history)r:
+    build(h)
+print(json.dumps([build("probe.s"), build("probe.s")]))
+"""
+
+
+def check_files(case):
+    """Sources assembled through the FILE API: earlier assemblies of sources that live in another directory (valid, or failing part-way) must not
+    change what a later source with relative file names includes; and a fresh process gives the same result whatever its hash seed."""
+    import shutil
+    root = tempfile.mkdtemp(prefix="vfC19f")
+    try:
+        other, here = os.path.join(root, "other"), os.path.join(root, "here")
+        os.makedirs(other)
+        os.makedirs(here)
+        for d, fill, tail in ((other, b"AAAAAAAA", "nop\nnop\n"), (here, b"WXYZ", "lda #0x12\nrts\n")):
+            open(os.path.join(d, "data.bin"), "wb").write(fill)
+            open(os.path.join(d, "tail.s"), "w").write(tail)
+        open(os.path.join(other, "main.s"), "w").write("*=0x008000\n.incbin 'data.bin'\n.include 'tail.s'\n")
+        open(os.path.join(other, "broken.s"), "w").write("*=0x008000\n.incbin 'data.bin'\nlda.w no_such_symbol\n")
+        # an IPS patch with overlapping records: the order in which they are re-emitted decides the image
+        recs = [(0x10, b"\x01\x02\x03\x04"), (0x12, b"\xAA\xBB"), (0x100, b"\x10\x20\x30\x40"), (0x102, b"\x55"), (0x103, b"\x66\x77")]
+        raw = b"PATCH" + b"".join(o.to_bytes(3, "big") + len(d).to_bytes(2, "big") + d for o, d in recs) + b"EOF"
+        open(os.path.join(here, "p.ips"), "wb").write(raw)
+        open(os.path.join(here, "probe.s"), "w").write("*=0x008000\n.incbin 'data.bin'\n.include 'tail.s'\n.include_ips 'p.ips', 0\n")
+        env = dict(os.environ, PYTHONPATH=f"{VERIF_ROOT}:{REPO_ROOT}", VERIF_REPO=REPO_ROOT)
+        results = {}
+        for label, history, seedv in (("alone, hash seed 0", [], "0"), ("alone, hash seed 1", [], "1"), ("alone, hash seed 7", [], "7"),
+                                      ("after a source in another directory", [os.path.join(other, "main.s")], "0"),
+                                      ("after a failing source in another directory", [os.path.join(other, "broken.s")], "0")):
+            code = FILES_RUNNER % {"native": os.path.join(VERIF_ROOT, "vf", "native"), "verif": VERIF_ROOT, "cwd": here, "history": history}
+            p = subprocess.run([sys.executable, "-c", code], capture_output=True, text=True, env=dict(env, PYTHONHASHSEED=seedv), timeout=120)
+            if p.returncode != 0:
+                return f"runner crashed ({label}): {p.stderr[-300:]}"
+            results[label] = json.loads(p.stdout.strip().splitlines()[-1])
+        ref = results["alone, hash seed 0"][0]
+        if ref["rc"] != 0:
+            return f"the probe alone is rejected: {ref}"
+        want = [[o, d.hex()] for o, d in recs] + [[0x0, "5758595aa91260"]]  # the patch records are written when the directive is reached, the pending code block at the end
+        if ref["blocks"] != want:
+            return f"the probe alone writes {ref['blocks']}, expected {want}"
+        for label, (first, second) in results.items():
+            if first != ref or second != ref:
+                return f"probe {label}: {json.dumps(first)[:200]} / {json.dumps(second)[:120]} differs from the probe alone: {json.dumps(ref)[:200]}"
+        return None
+    finally:
+        shutil.rmtree(root, ignore_errors=True)
+
+
 def run(tier, seed):
     rng = random.Random(seed)
     cases = []
@@ -108,15 +170,19 @@ def run(tier, seed):
         f = check(c)
         if f and len(failures) < 8:
             failures.append({"ident": "bounded/history-vs-fresh-process", "script": "b_C19.py", "payload": c, "observed": f})
-    return {"evaluations": len(cases), "distinct_nontrivial": len({json.dumps(c) for c in cases}),
-            "rule": "every probe after every single earlier assembly (11 kinds: macro / symbol / table / custom .map definitions, failures part-way, "
+    f = check_files({})
+    if f:
+        failures.append({"ident": "bounded/file-api-histories-and-hash-seeds", "script": "b_C19.py", "payload": {"files": True}, "observed": f})
+    return {"evaluations": len(cases) + 5, "distinct_nontrivial": len({json.dumps(c) for c in cases}) + 5,
+            "rule": "a probe with relative .incbin / .include / .include_ips (overlapping records) through the FILE API, alone under three hash seeds and after sources "
+                    "assembled from another directory (valid / failing); every probe after every single earlier assembly (11 kinds: macro / symbol / table / custom .map definitions, failures part-way, "
                     "HiROM) and seeded histories of 2-5 assemblies, in one process, vs the probe alone in a fresh process; probe run twice (repeatability); "
                     "compares status, blocks, all symbol values and the error text",
             "samples": cases[:2], "failures": failures}
 
 
 def replay(payload):
-    f = check(payload)
+    f = check_files(payload) if payload.get("files") else check(payload)
     return {"failed": f is not None, "observed": f}
 
 
